@@ -24,7 +24,7 @@ CHECK = dict(
           "non-trivial = hull inputs of affine rank 3 with >= 5 distinct points (QuickHull's iteration runs), non-empty seed hulls, non-empty Minkowski results. "
           "Admissible samples are farther than max(tolerance, 1e-6) from the surface they are classified against."),
     bounds=dict(quick="multisets of <= 6 points of {0,1,2}^3 x 2 orders x 3 frames (<= 5 in the 2^-20 frame), multisets of 5..6 points of a 12-point sub-lattice x 4 frames, "
-                      "2^19 rotated slab subsets, 2 x 1728 boxes, 35 seeds, 1225 pairs, 100 Minkowski calls on a 13^3 grid: 7.7M library calls",
+                      "2^19 rotated slab subsets, 2 x 1728 boxes, 144 needle-shaped boxes (aspect ratio 1e3 .. 3e4), 35 seeds, 1225 pairs, 120 Minkowski calls (first operands incl. a 1200-triangle notched sphere and two disjoint cubes) on a 13^3 grid: 7.7M library calls",
                 thorough="adds multisets of 7 points (8.5M per frame), the 0.1-scaled frame, the 2^-20 frame at 6 points, the exact slab subsets, a 21^3 Minkowski grid "
                          "(55M calls), and an ASan/UBSan run of a 0.3M-call subset"),
     assumptions=COMMON_ASSUME + [
